@@ -6,6 +6,7 @@ CONSTANTS
   QueueMax = 1
   MaxTasks = 2
   MaxOps = 0
+  RetryExact = TRUE
   SyncTask = FALSE
   Dev = {}
 SPECIFICATION LiveSpec
